@@ -90,23 +90,52 @@ def compliantName (b : Bytes) : Bytes :=
   let isDigit (c : UInt8) : Bool := 48 ≤ c.toNat && c.toNat ≤ 57
   (b.zipIdx).map fun (c, i) => if !isLetter c && (i == 0 || !isDigit c) then 95 else c
 
-def selComp (i : Option Nat) (t : Tree) (comp : String) : Option Tree :=
-  if comp == "CompliantName()" then (t.field "v").map fun v => .leaf (compliantName v.leafBytes)
-  else if comp.endsWith "[i]" then do
-    let f := (comp.dropEnd 3).toString
-    let l ← if f == "" then some t else t.field f
+/-! ### operands, compiled
+
+The regenerated table spells operands as Go text (`q.Where`, `p[i].Expr`, `q.Exprs[i]`, `q.CompliantName()`).
+They are parsed once, over `List Char` (structural recursion only, so that the kernel evaluates the
+compilation of the whole table – `by decide` – and the proofs never reason about `String` primitives). -/
+
+/-- a parsed operand: root (`q`/`p`), `root[i]`?, then components `(field, followed by [i]?)` -/
+structure Opnd where
+  onQ : Bool
+  rootIdx : Bool
+  path : List (String × Bool)
+deriving Repr, DecidableEq, Inhabited
+
+def splitOnChar (c : Char) : List Char → List Char → List (List Char)
+  | acc, [] => [acc.reverse]
+  | acc, x :: xs => if x == c then acc.reverse :: splitOnChar c [] xs else splitOnChar c (x :: acc) xs
+
+/-- `Exprs[i]` ↦ (`Exprs`, true) -/
+def stripIdx (cs : List Char) : List Char × Bool :=
+  match cs.reverse with
+  | ']' :: 'i' :: '[' :: rest => (rest.reverse, true)
+  | _ => (cs, false)
+
+def parseOpnd (s : String) : Opnd :=
+  match splitOnChar '.' [] s.toList with
+  | [] => ⟨false, false, []⟩
+  | root :: rest =>
+    ⟨root.head? == some 'q', (stripIdx root).2, rest.map fun c => (String.ofList (stripIdx c).1, (stripIdx c).2)⟩
+
+/-- one component of an operand path -/
+def stepComp (i : Option Nat) (t : Tree) (c : String × Bool) : Option Tree :=
+  if c.2 then do
+    let l ← if c.1 == "" then some t else t.field c.1
     let n ← i
     l.kids[n]?
-  else t.field comp
+  else if c.1 == "CompliantName()" then (t.field "v").map fun v => .leaf (compliantName v.leafBytes)
+  else t.field c.1
 
-/-- evaluates an operand such as `q.Where`, `p[i].Expr`, `q.Exprs[i]`, `q.CompliantName()` -/
-def sel (i : Option Nat) (q p : Tree) (operand : String) : Option Tree :=
-  match operand.splitOn "." with
-  | [] => none
-  | root :: rest =>
-    let base := if root.startsWith "q" then q else p
-    let base? := if root.endsWith "[i]" then i.bind (base.kids[·]?) else some base
-    rest.foldl (fun acc c => acc.bind fun t => selComp i t c) base?
+/-- evaluates a parsed operand such as `q.Where`, `p[i].Expr`, `q.Exprs[i]`, `q.CompliantName()` -/
+def selO (i : Option Nat) (q p : Tree) (o : Opnd) : Option Tree :=
+  let base := if o.onQ then q else p
+  let base? := if o.rootIdx then i.bind (base.kids[·]?) else some base
+  o.path.foldl (fun acc c => acc.bind fun t => stepComp i t c) base?
+
+/-- evaluates an operand given as text -/
+def sel (i : Option Nat) (q p : Tree) (operand : String) : Option Tree := selO i q p (parseOpnd operand)
 
 def foldEq (a b : Tree) : Bool :=
   match a, b with
@@ -127,77 +156,126 @@ def opCmp (call : String → Tree → Tree → Bool) (callee : String) (a b : Tr
   else if callee == "reflect.DeepEqual" || callee == "bytes.Equal" then a == b
   else call callee a b
 
-/-- one step of a comparator at loop index `i` (`none` outside a loop) -/
-def stepAt (call : String → Tree → Tree → Bool) (esc : String → Tree → Bool) (q p : Tree) (i : Option Nat) (kind : String) (r : Row) : Res :=
+/-- a compiled step (everything except loops) -/
+inductive AStep where
+  | cast (onQ : Bool) (ty : String)
+  | shortcut (o : Opnd) (ph : String)
+  | nilboth
+  | nileither
+  | len (a b : Opnd)
+  | ne (a b : Opnd)
+  | cmp (callee : String) (a b : Opnd)
+  | cmpNeg (callee : String) (a b : Opnd)
+  | cmpEsc (esc : String) (ea : Opnd) (callee : String) (a b : Opnd)
+  | bad
+deriving Repr, DecidableEq, Inhabited
+
+/-- a compiled step: atomic, or a `for index := range over { body }` -/
+inductive CStep where
+  | atom (a : AStep)
+  | range (over : Opnd) (body : List AStep)
+deriving Repr, DecidableEq, Inhabited
+
+/-- kind text (without the `each:` prefix) + row ↦ atomic step -/
+def compileAtom (kind : List Char) (r : Row) : AStep :=
   let (_, callee, qa, pa) := r
-  match kind with
-  | "cast" => if (if qa == "q" then q else p).kind == callee then .pass else .ret false
-  | "shortcut" =>
-    match sel i q p qa, placeholderStmt pa with
+  if kind == "cast".toList then .cast (qa == "q") callee
+  else if kind == "shortcut".toList then .shortcut (parseOpnd qa) pa
+  else if kind == "nilboth".toList then .nilboth
+  else if kind == "nileither".toList then .nileither
+  else if kind == "len".toList then .len (parseOpnd qa) (parseOpnd pa)
+  else if kind == "ne".toList then .ne (parseOpnd qa) (parseOpnd pa)
+  else if kind == "cmp".toList then .cmp callee (parseOpnd qa) (parseOpnd pa)
+  else if kind == "cmpNeg".toList then .cmpNeg callee (parseOpnd qa) (parseOpnd pa)
+  else
+    -- cmpEsc:<escape>:<operand>
+    match splitOnChar ':' [] kind with
+    | [k, e, ea] => if k == "cmpEsc".toList then .cmpEsc (String.ofList e) (parseOpnd (String.ofList ea)) callee (parseOpnd qa) (parseOpnd pa) else .bad
+    | _ => .bad
+
+def isEach (r : Row) : Bool := r.1.toList.take 5 == "each:".toList
+
+/-- rows → compiled steps; the `each:` rows that follow a `range` row form its body (processed from the right:
+`pending` collects the body of the loop whose `range` row comes next) -/
+def compileRows : List Row → List CStep × List AStep
+  | [] => ([], [])
+  | r :: rs =>
+    let (acc, pending) := compileRows rs
+    if isEach r then (acc, compileAtom (r.1.toList.drop 5) r :: pending)
+    else if r.1 == "range" then (.range (parseOpnd r.2.2.2) pending :: acc, [])
+    else
+      -- `each:` rows without a `range` in front of them do not occur; if they did the body would stop with false
+      (.atom (compileAtom r.1.toList r) :: (if pending.isEmpty then acc else .atom .bad :: acc), [])
+
+def compileSteps (rs : List Row) : List CStep :=
+  let (acc, pending) := compileRows rs
+  if pending.isEmpty then acc else .atom .bad :: acc
+
+/-- one atomic step of a comparator at loop index `i` (`none` outside a loop) -/
+def atomAt (call : String → Tree → Tree → Bool) (esc : String → Tree → Bool) (q p : Tree) (i : Option Nat) : AStep → Res
+  | .cast onQ ty => if (if onQ then q else p).kind == ty then .pass else .ret false
+  | .shortcut o ph =>
+    match selO i q p o, placeholderStmt ph with
     | some x, some c => if x == c then .ret true else .pass
     | _, _ => .ret false
-  | "nilboth" => if q.isNil && p.isNil then .ret true else .pass
-  | "nileither" => if q.isNil || p.isNil then .ret false else .pass
-  | "len" =>
-    match sel i q p qa, sel i q p pa with
+  | .nilboth => if q.isNil && p.isNil then .ret true else .pass
+  | .nileither => if q.isNil || p.isNil then .ret false else .pass
+  | .len a b =>
+    match selO i q p a, selO i q p b with
     | some a, some b => if a.kids.length != b.kids.length then .ret false else .pass
     | _, _ => .ret false
-  | "ne" =>
-    match sel i q p qa, sel i q p pa with
+  | .ne a b =>
+    match selO i q p a, selO i q p b with
     | some a, some b => if a != b then .ret false else .pass
     | _, _ => .ret false
-  | "cmp" =>
-    match sel i q p qa, sel i q p pa with
+  | .cmp callee a b =>
+    match selO i q p a, selO i q p b with
     | some a, some b => if !opCmp call callee a b then .ret false else .pass
     | _, _ => .ret false
-  | "cmpNeg" =>
-    match sel i q p qa, sel i q p pa with
+  | .cmpNeg callee a b =>
+    match selO i q p a, selO i q p b with
     | some a, some b => if opCmp call callee a b then .ret false else .pass
     | _, _ => .ret false
-  | _ =>
-    -- cmpEsc:<escape>:<operand>
-    match kind.splitOn ":" with
-    | ["cmpEsc", e, ea] =>
-      match sel i q p qa, sel i q p pa, sel i q p ea with
-      | some a, some b, some x => if !opCmp call callee a b then .ret (esc e x) else .pass
-      | _, _, _ => .ret false
-    | _ => .ret false
+  | .cmpEsc e ea callee a b =>
+    match selO i q p a, selO i q p b, selO i q p ea with
+    | some a, some b, some x => if !opCmp call callee a b then .ret (esc e x) else .pass
+    | _, _, _ => .ret false
+  | .bad => .ret false
 
 /-- the body of one loop iteration -/
-def eachAt (call : String → Tree → Tree → Bool) (esc : String → Tree → Bool) (q p : Tree) (i : Nat) : List Row → Res
+def eachAt (call : String → Tree → Tree → Bool) (esc : String → Tree → Bool) (q p : Tree) (i : Nat) : List AStep → Res
   | [] => .pass
-  | r :: rs =>
-    match stepAt call esc q p (some i) ((r.1.drop 5).toString) r with
-    | .pass => eachAt call esc q p i rs
+  | a :: as =>
+    match atomAt call esc q p (some i) a with
+    | .pass => eachAt call esc q p i as
     | .ret b => .ret b
 
-def loopOver (call : String → Tree → Tree → Bool) (esc : String → Tree → Bool) (q p : Tree) (body : List Row) : List Nat → Res
+def loopOver (call : String → Tree → Tree → Bool) (esc : String → Tree → Bool) (q p : Tree) (body : List AStep) : List Nat → Res
   | [] => .pass
   | i :: is =>
     match eachAt call esc q p i body with
     | .pass => loopOver call esc q p body is
     | .ret b => .ret b
 
-def isEach (r : Row) : Bool := r.1.toList.take 5 == "each:".toList
+/-- a compiled comparator body: steps in source order, then the final `return` -/
+def runC (call : String → Tree → Tree → Bool) (esc : String → Tree → Bool) (q p : Tree) (fin : Bool) : List CStep → Bool
+  | [] => fin
+  | .atom a :: rs =>
+    match atomAt call esc q p none a with
+    | .pass => runC call esc q p fin rs
+    | .ret b => b
+  | .range o body :: rs =>
+    match selO none q p o with
+    | none => false
+    | some l =>
+      match loopOver call esc q p body (List.range l.kids.length) with
+      | .pass => runC call esc q p fin rs
+      | .ret b => b
 
-/-- a comparator body: steps in source order, then the final `return` -/
+/-- a comparator body given as rows of the regenerated table (`n` is a historical fuel argument: any non-zero value) -/
 def runSteps (call : String → Tree → Tree → Bool) (esc : String → Tree → Bool) (q p : Tree) (fin : Bool) : Nat → List Row → Bool
   | 0, _ => false
-  | _, [] => fin
-  | n + 1, r :: rs =>
-    if r.1 == "range" then
-      let body := rs.takeWhile isEach
-      let rest := rs.dropWhile isEach
-      match sel none q p r.2.2.2 with
-      | none => false
-      | some l =>
-        match loopOver call esc q p body (List.range l.kids.length) with
-        | .pass => runSteps call esc q p fin n rest
-        | .ret b => b
-    else
-      match stepAt call esc q p none r.1 r with
-      | .pass => runSteps call esc q p fin n rs
-      | .ret b => b
+  | _ + 1, rows => runC call esc q p fin (compileSteps rows)
 
 def all2 (f : Tree → Tree → Bool) : List Tree → List Tree → Bool
   | [], [] => true
@@ -215,77 +293,90 @@ def specialFns : List String :=
   ["handleStreamStatement", "areEqualSQLVal", "areEqualColIdent", "areEqualSubquery", "areEqualValTuple",
    "areEqualSelectExprs", "areEqualSelectExpr", "areEqualInsertRows", "areEqualExpr"]
 
+/-- the functions that switch on the pattern's type (`typeSwitches`, regenerated): the case of `p`'s type decides;
+a plain case is `q, ok := query.(T); if !ok {return false}; return callee(q…, p…)`, the others are written by hand
+(`special`) -/
+def typeSwitchEval (call : String → Tree → Tree → Bool) (fn : String) (q p : Tree) (special : String → Option Bool) : Bool :=
+  match (typeSwitches.lookup fn).bind (·.find? (·.1 == p.kind)) with
+  | none => false
+  | some (_, callee, qa, pa) =>
+    if callee == "special" then (special p.kind).getD false
+    else if q.kind != p.kind then false
+    else
+      match sel none q p qa, sel none q p pa with
+      | some a, some b => opCmp call callee a b
+      | _, _ => false
+
+/-- `isWherePattern(pattern)`: nil-safe; EqualFold(Type) and areEqualExpr(pattern.Expr, WherePattern.Expr) -/
+def escEval (call : String → Tree → Tree → Bool) (e : String) (x : Tree) : Bool :=
+  e == "isWherePattern" && !x.isNil && foldEq (fld x "Type") (fld wherePattern "Type")
+    && call "areEqualExpr" (fld x "Expr") (fld wherePattern "Expr")
+
+/-- `areEqualSelectExpr`: the hand-written cases of its type switch -/
+def selectExprSpecial (call : String → Tree → Tree → Bool) (q p : Tree) (k : String) : Option Bool :=
+  if k == "StarExpr" then
+    some (q.kind == "StarExpr" && call "areEqualTableName" (fld q "TableName") (fld p "TableName"))
+  else if k == "AliasedExpr" then
+    if q.kind != "AliasedExpr" then
+      some (q.kind == "StarExpr" && (fld p "Expr").kind == "ColName" && isColumnPattern (fld (fld p "Expr") "Name"))
+    else some (call "areEqualAliasedExpr" q p)
+  else none
+
+/-- `areEqualInsertRows`: case `sqlparser.Values` -/
+def insertRowsSpecial (call : String → Tree → Tree → Bool) (q p : Tree) (k : String) : Option Bool :=
+  if k == "Values" then some (q.kind == "Values" && all2 (call "areEqualValTuple") q.kids p.kids) else none
+
+/-- `areEqualExpr`: cases `*sqlparser.SQLVal` and `*sqlparser.ColName` -/
+def exprSpecial (call : String → Tree → Tree → Bool) (q p : Tree) (k : String) : Option Bool :=
+  if k == "SQLVal" then
+    if q.kind == "SQLVal" then some (call "areEqualSQLVal" q p)
+    else if q.kind == "BoolVal" || q.kind == "NullVal" || q.kind == "FuncExpr" then
+      some (isValuePattern p || isListOfValuesPattern p)
+    else some false
+  else if k == "ColName" then
+    if q.kind == "ColName" then some (call "areEqualColName" q p)
+    else if q.kind == "SQLVal" || q.kind == "Subquery" || q.kind == "FuncExpr" || q.kind == "CaseExpr" || q.kind == "ParenExpr" then
+      some (isColumnPattern (fld p "Name"))
+    else some false
+  else none
+
+/-- the hand-written functions (`specialFns`), following the Go text -/
+def evalSpecial (call : String → Tree → Tree → Bool) (fn : String) (q p : Tree) : Bool :=
+  if fn == "areEqualSQLVal" then
+    isValuePattern p || isListOfValuesPattern p
+      || ((fld q "Type").leafBytes == (fld p "Type").leafBytes && (fld q "Val").leafBytes == (fld p "Val").leafBytes)
+  else if fn == "areEqualColIdent" then
+    isColumnPattern p || lowerBytes (fld q "val").leafBytes == lowerBytes (fld p "val").leafBytes
+  else if fn == "areEqualSubquery" then
+    if !call "areEqualSelectStatement" (fld q "Select") (fld p "Select") then fld p "Select" == subqueryPattern else true
+  else if fn == "areEqualValTuple" then
+    if !prefixAll (call "areEqualExpr") q.kids p.kids then false
+    else if q.kids.length > p.kids.length then
+      match p.kids.getLast? with
+      | some l => l.kind == "SQLVal" && isListOfValuesPattern l
+      | none => false
+    else true
+  else if fn == "areEqualSelectExprs" then
+    if p.kids.length == 1 && (p.kids.head?.map (·.kind)) == some "StarExpr" then true
+    else all2 (call "areEqualSelectExpr") q.kids p.kids
+  else if fn == "areEqualSelectExpr" then typeSwitchEval call fn q p (selectExprSpecial call q p)
+  else if fn == "areEqualInsertRows" then typeSwitchEval call fn q p (insertRowsSpecial call q p)
+  else if fn == "areEqualExpr" then
+    if q.isNil && p.isNil then true
+    else if q.isNil || p.isNil then false
+    else typeSwitchEval call fn q p (exprSpecial call q p)
+  else false  -- handleStreamStatement: a stub that returns false
+
 /-- `fn(query, pattern)` for every function of `matching_logic.go` (by name). -/
 def evalFn : Nat → String → Tree → Tree → Bool
   | 0, _, _, _ => false
   | fuel + 1, fn, q, p =>
     let call := evalFn fuel
-    let esc : String → Tree → Bool := fun e x =>
-      -- isWherePattern(pattern): nil-safe; EqualFold(Type) and areEqualExpr(pattern.Expr, WherePattern.Expr)
-      e == "isWherePattern" && !x.isNil && foldEq (fld x "Type") (fld wherePattern "Type")
-        && call "areEqualExpr" (fld x "Expr") (fld wherePattern "Expr")
-    let typeSwitch (special : String → Option Bool) : Bool :=
-      match (typeSwitches.lookup fn).bind (·.find? (·.1 == p.kind)) with
-      | none => false
-      | some (_, callee, qa, pa) =>
-        if callee == "special" then (special p.kind).getD false
-        else if q.kind != p.kind then false
-        else
-          match sel none q p qa, sel none q p pa with
-          | some a, some b => opCmp call callee a b
-          | _, _ => false
     if !specialFns.contains fn then
       match comparators.lookup fn with
-      | some (fin, steps) => runSteps call esc q p fin (steps.length + 1) steps
-      | none => typeSwitch fun _ => none
-    else
-    match fn with
-    | "handleStreamStatement" => false
-    | "areEqualSQLVal" =>
-      isValuePattern p || isListOfValuesPattern p
-        || ((fld q "Type").leafBytes == (fld p "Type").leafBytes && (fld q "Val").leafBytes == (fld p "Val").leafBytes)
-    | "areEqualColIdent" =>
-      isColumnPattern p || lowerBytes (fld q "val").leafBytes == lowerBytes (fld p "val").leafBytes
-    | "areEqualSubquery" =>
-      if !call "areEqualSelectStatement" (fld q "Select") (fld p "Select") then fld p "Select" == subqueryPattern else true
-    | "areEqualValTuple" =>
-      if !prefixAll (call "areEqualExpr") q.kids p.kids then false
-      else if q.kids.length > p.kids.length then
-        match p.kids.getLast? with
-        | some l => l.kind == "SQLVal" && isListOfValuesPattern l
-        | none => false
-      else true
-    | "areEqualSelectExprs" =>
-      if p.kids.length == 1 && (p.kids.head?.map (·.kind)) == some "StarExpr" then true
-      else all2 (call "areEqualSelectExpr") q.kids p.kids
-    | "areEqualSelectExpr" =>
-      typeSwitch fun k =>
-        if k == "StarExpr" then
-          some (q.kind == "StarExpr" && call "areEqualTableName" (fld q "TableName") (fld p "TableName"))
-        else if k == "AliasedExpr" then
-          if q.kind != "AliasedExpr" then
-            some (q.kind == "StarExpr" && (fld p "Expr").kind == "ColName" && isColumnPattern (fld (fld p "Expr") "Name"))
-          else some (call "areEqualAliasedExpr" q p)
-        else none
-    | "areEqualInsertRows" =>
-      typeSwitch fun k =>
-        if k == "Values" then some (q.kind == "Values" && all2 (call "areEqualValTuple") q.kids p.kids) else none
-    | "areEqualExpr" =>
-      if q.isNil && p.isNil then true
-      else if q.isNil || p.isNil then false
-      else typeSwitch fun k =>
-        if k == "SQLVal" then
-          if q.kind == "SQLVal" then some (call "areEqualSQLVal" q p)
-          else if q.kind == "BoolVal" || q.kind == "NullVal" || q.kind == "FuncExpr" then
-            some (isValuePattern p || isListOfValuesPattern p)
-          else some false
-        else if k == "ColName" then
-          if q.kind == "ColName" then some (call "areEqualColName" q p)
-          else if q.kind == "SQLVal" || q.kind == "Subquery" || q.kind == "FuncExpr" || q.kind == "CaseExpr" || q.kind == "ParenExpr" then
-            some (isColumnPattern (fld p "Name"))
-          else some false
-        else none
-    | _ => false
+      | some (fin, steps) => runSteps call (escEval call) q p fin (steps.length + 1) steps
+      | none => typeSwitchEval call fn q p fun _ => none
+    else evalSpecial call fn q p
 
 /-- `checkSinglePatternMatch(query, pattern)` -/
 def checkSinglePatternMatch (fuel : Nat) (q p : Tree) : Bool :=
@@ -319,50 +410,20 @@ def stepOk (r : Row) : Bool :=
 same part of the pattern, with the right polarity (`cmpNeg` – `if equal { return false }` – is not well formed) -/
 def comparatorOk (c : String × Bool × List Row) : Bool := c.2.1 && c.2.2.all stepOk
 
-/-- "no step of the body stops with false" (same recursion as `runSteps`) -/
-def noFalse (call : String → Tree → Tree → Bool) (esc : String → Tree → Bool) (q p : Tree) : Nat → List Row → Bool
-  | 0, _ => false
-  | _, [] => true
-  | n + 1, r :: rs =>
-    if r.1 == "range" then
-      match sel none q p r.2.2.2 with
-      | none => false
-      | some l =>
-        match loopOver call esc q p (rs.takeWhile isEach) (List.range l.kids.length) with
-        | .pass => noFalse call esc q p n (rs.dropWhile isEach)
-        | .ret b => b
-    else
-      match stepAt call esc q p none r.1 r with
-      | .pass => noFalse call esc q p n rs
-      | .ret b => b
+/-- "no step of the body stops with false": the body run with `true` as its final value -/
+def noFalse (call : String → Tree → Tree → Bool) (esc : String → Tree → Bool) (q p : Tree) (n : Nat) (rows : List Row) : Bool :=
+  runSteps call esc q p true n rows
+
+theorem runC_of_true (call : String → Tree → Tree → Bool) (esc : String → Tree → Bool) (q p : Tree) (fin : Bool)
+    (steps : List CStep) (h : runC call esc q p true steps = true) (hfin : fin = true) :
+    runC call esc q p fin steps = true := by
+  subst hfin; exact h
 
 /-- **All comparisons succeed ⇒ the handler returns its final value.** -/
 theorem runSteps_of_noFalse (call : String → Tree → Tree → Bool) (esc : String → Tree → Bool) (q p : Tree) (fin : Bool)
     (n : Nat) (steps : List Row) (h : noFalse call esc q p n steps = true) (hfin : fin = true) :
     runSteps call esc q p fin n steps = true := by
-  induction n generalizing steps with
-  | zero => simp [noFalse] at h
-  | succ n ih =>
-    cases steps with
-    | nil => simp [runSteps, hfin]
-    | cons r rs =>
-      simp only [noFalse] at h
-      simp only [runSteps]
-      split
-      · next hr =>
-        simp only [hr, if_true] at h
-        split
-        · next hs => simp [hs] at h
-        · next l hs =>
-          simp only [hs] at h
-          split
-          · next hl => simp only [hl] at h; exact ih _ h
-          · next b hl => simp only [hl] at h; exact h
-      · next hr =>
-        simp only [hr] at h
-        split
-        · next hs => simp only [hs] at h; exact ih _ h
-        · next b hs => simp only [hs] at h; exact h
+  subst hfin; exact h
 
 theorem evalFn_regular (fuel : Nat) (fn : String) (q p : Tree) (fin : Bool) (steps : List Row)
     (hs : specialFns.contains fn = false) (hl : comparators.lookup fn = some (fin, steps)) :
@@ -372,33 +433,90 @@ theorem evalFn_regular (fuel : Nat) (fn : String) (q p : Tree) (fin : Bool) (ste
           && evalFn fuel "areEqualExpr" (fld x "Expr") (fld wherePattern "Expr"))
         q p fin (steps.length + 1) steps := by
   simp only [evalFn, hs, hl, Bool.not_false, if_true]
+  rfl
+
+/-! ### the hand-written functions, unfolded -/
+
+theorem evalFn_special (fuel : Nat) (fn : String) (q p : Tree) (hs : specialFns.contains fn = true) :
+    evalFn (fuel + 1) fn q p = evalSpecial (evalFn fuel) fn q p := by
+  simp only [evalFn, hs, Bool.not_true, Bool.false_eq_true, if_false]
+
+theorem evalFn_SQLVal (fuel : Nat) (q p : Tree) :
+    evalFn (fuel + 1) "areEqualSQLVal" q p = (isValuePattern p || isListOfValuesPattern p
+      || ((fld q "Type").leafBytes == (fld p "Type").leafBytes && (fld q "Val").leafBytes == (fld p "Val").leafBytes)) := by
+  rw [evalFn_special _ _ _ _ (by decide)]; rfl
+
+theorem evalFn_ColIdent (fuel : Nat) (q p : Tree) :
+    evalFn (fuel + 1) "areEqualColIdent" q p =
+      (isColumnPattern p || lowerBytes (fld q "val").leafBytes == lowerBytes (fld p "val").leafBytes) := by
+  rw [evalFn_special _ _ _ _ (by decide)]; rfl
+
+theorem evalFn_Subquery (fuel : Nat) (q p : Tree) :
+    evalFn (fuel + 1) "areEqualSubquery" q p =
+      (if !evalFn fuel "areEqualSelectStatement" (fld q "Select") (fld p "Select") then fld p "Select" == subqueryPattern else true) := by
+  rw [evalFn_special _ _ _ _ (by decide)]; rfl
+
+theorem evalFn_ValTuple (fuel : Nat) (q p : Tree) :
+    evalFn (fuel + 1) "areEqualValTuple" q p =
+      (if !prefixAll (evalFn fuel "areEqualExpr") q.kids p.kids then false
+       else if q.kids.length > p.kids.length then
+         match p.kids.getLast? with
+         | some l => l.kind == "SQLVal" && isListOfValuesPattern l
+         | none => false
+       else true) := by
+  rw [evalFn_special _ _ _ _ (by decide)]; rfl
+
+theorem evalFn_SelectExprs (fuel : Nat) (q p : Tree) :
+    evalFn (fuel + 1) "areEqualSelectExprs" q p =
+      (if p.kids.length == 1 && (p.kids.head?.map (·.kind)) == some "StarExpr" then true
+       else all2 (evalFn fuel "areEqualSelectExpr") q.kids p.kids) := by
+  rw [evalFn_special _ _ _ _ (by decide)]; rfl
+
+theorem evalFn_SelectExpr (fuel : Nat) (q p : Tree) :
+    evalFn (fuel + 1) "areEqualSelectExpr" q p =
+      typeSwitchEval (evalFn fuel) "areEqualSelectExpr" q p (selectExprSpecial (evalFn fuel) q p) := by
+  rw [evalFn_special _ _ _ _ (by decide)]; rfl
+
+theorem evalFn_InsertRows (fuel : Nat) (q p : Tree) :
+    evalFn (fuel + 1) "areEqualInsertRows" q p =
+      typeSwitchEval (evalFn fuel) "areEqualInsertRows" q p (insertRowsSpecial (evalFn fuel) q p) := by
+  rw [evalFn_special _ _ _ _ (by decide)]; rfl
+
+theorem evalFn_Expr (fuel : Nat) (q p : Tree) :
+    evalFn (fuel + 1) "areEqualExpr" q p =
+      (if q.isNil && p.isNil then true
+       else if q.isNil || p.isNil then false
+       else typeSwitchEval (evalFn fuel) "areEqualExpr" q p (exprSpecial (evalFn fuel) q p)) := by
+  rw [evalFn_special _ _ _ _ (by decide)]; rfl
+
+/-- a type switch without hand-written cases -/
+theorem evalFn_switch (fuel : Nat) (fn : String) (q p : Tree) (hs : specialFns.contains fn = false)
+    (hl : comparators.lookup fn = none) :
+    evalFn (fuel + 1) fn q p = typeSwitchEval (evalFn fuel) fn q p fun _ => none := by
+  simp only [evalFn, hs, hl, Bool.not_false, if_true]
 
 /-! ### what a placeholder matches -/
 
 /-- `%%VALUE%%` (and `%%LIST_OF_VALUES%%`) match every literal. -/
 theorem value_matches (fuel : Nat) (q : Tree) : evalFn (fuel + 1) "areEqualSQLVal" q valuePattern = true := by
   have : isValuePattern valuePattern = true := by decide
-  simp [evalFn, this]
-  exact Or.inl (by decide)
+  rw [evalFn_SQLVal, this]; rfl
 
 theorem listOfValues_matches (fuel : Nat) (q : Tree) : evalFn (fuel + 1) "areEqualSQLVal" q listOfValuesPattern = true := by
   have : isListOfValuesPattern listOfValuesPattern = true := by decide
-  simp [evalFn, this]
-  exact Or.inl (by decide)
+  rw [evalFn_SQLVal, this]; simp
 
 /-- `%%COLUMN%%` matches every identifier. -/
 theorem column_matches (fuel : Nat) (q : Tree) : evalFn (fuel + 1) "areEqualColIdent" q columnPattern = true := by
   have : isColumnPattern columnPattern = true := by decide
-  simp [evalFn, this]
-  exact Or.inl (by decide)
+  rw [evalFn_ColIdent, this]; rfl
 
 /-- `(%%SUBQUERY%%)` matches every sub-select. -/
 theorem subquery_matches (fuel : Nat) (q : Tree) :
     evalFn (fuel + 1) "areEqualSubquery" q (.node "Subquery" [subqueryPattern]) = true := by
   have h : fld (.node "Subquery" [subqueryPattern]) "Select" = subqueryPattern := by rfl
   have h2 : (subqueryPattern == subqueryPattern) = true := Tree.beq_refl _
-  have hsp : specialFns.contains "areEqualSubquery" = true := by decide
-  simp only [evalFn, h, h2, hsp]
+  rw [evalFn_Subquery, h, h2]
   simp
 
 end AcraModel.Censor.Match
